@@ -234,7 +234,7 @@ def load_known(pid):
     return [k for k in data.get("open", []) if k["property"] == pid]
 
 
-def run_cases(mod, tier, seed, shard=None, replay=None, case_timeout=120):
+def run_cases(mod, tier, seed, shard=None, replay=None, case_timeout=300):
     """Run the module's workload in this process.  Returns a result dict."""
     pid = mod.PROPERTY
     budget = dict(mod.QUICK if tier == "quick" else mod.THOROUGH)
@@ -246,8 +246,13 @@ def run_cases(mod, tier, seed, shard=None, replay=None, case_timeout=120):
     ss = np.random.SeedSequence([seed, 0 if shard is None else shard[0] + 1,
                                  int(hashlib.sha1(pid.encode()).hexdigest()[:6], 16)])
     rng = np.random.default_rng(ss)
+    # import the library under test outside the per-case watchdog: an alarm firing in the middle of
+    # `import abtem` would leave half-initialised modules behind and poison every later case
+    import abtem  # noqa: F401
+    import abtem.bloch  # noqa: F401
     t0 = time.time()
     timed_out_cases = 0
+    aborted = False
     if hasattr(mod, "setup"):
         mod.setup(ctx)
     signal.signal(signal.SIGALRM, _alarm)
@@ -261,8 +266,11 @@ def run_cases(mod, tier, seed, shard=None, replay=None, case_timeout=120):
         except Refuted:
             pass
         except CaseTimeout:
+            # inconclusive, never a violation; interpreter state after an asynchronous exception is not
+            # trusted, so this process stops drawing cases
             timed_out_cases += 1
             ctx.errors["case-timeout"] += 1
+            aborted = True
         except Exception as e:
             # an exception escaping the workload inside the property's domain is a violation
             ctx.clauses["no-unexpected-exception"] += 0
@@ -280,10 +288,10 @@ def run_cases(mod, tier, seed, shard=None, replay=None, case_timeout=120):
             fixed = list(mod.fixed_cases(tier))
             # spread deterministic cases over the shards
             for k, case in enumerate(fixed):
-                if shard is None or k % nshards == shard[0]:
+                if (shard is None or k % nshards == shard[0]) and not aborted:
                     one(case)
         n = 0
-        while n < budget["n"] and time.time() - t0 < budget["time"]:
+        while n < budget["n"] and time.time() - t0 < budget["time"] and not aborted:
             case = mod.gen(rng, tier)
             n += 1
             one(case)
@@ -408,7 +416,8 @@ def main(argv=None):
     if missing:
         inconclusive.append("clauses never evaluated: " + ",".join(missing))
     if res["timed_out_cases"]:
-        # case time-outs are inconclusive, not violations
+        # case time-outs are inconclusive, not violations; a few on a loaded machine are tolerated (noted in
+        # the evidence) as long as every required clause was still evaluated by the other cases / shards
         if res["timed_out_cases"] > max(2, res["evaluations"] // 10):
             inconclusive.append("%d cases hit the watchdog" % res["timed_out_cases"])
     min_nt = 2
@@ -417,10 +426,20 @@ def main(argv=None):
 
     replay_path = None
     if res["n_violations"]:
+        # keep a clause-diverse selection of witnesses (round-robin over clauses)
+        by_clause = defaultdict(list)
+        for v in res["violations"]:
+            by_clause[v["clause"]].append(v)
+        picked = []
+        while len(picked) < 30 and any(by_clause.values()):
+            for c in list(by_clause):
+                if by_clause[c]:
+                    picked.append(by_clause[c].pop(0))
+        res["violations"] = picked + [v for vs in by_clause.values() for v in vs]
         REPLAY.mkdir(exist_ok=True)
         replay_path = REPLAY / ("%s-seed%d-%s.json" % (pid, a.seed, a.tier))
         replay_path.write_text(json.dumps({"property": pid, "seed": a.seed, "tier": a.tier,
-                                           "violations": res["violations"][:20]}, indent=1))
+                                           "violations": res["violations"][:30]}, indent=1))
 
     if not a.no_evidence and not a.replay:
         level = getattr(mod, "LEVEL", "exploration")
